@@ -50,6 +50,7 @@ type builder struct {
 	cbs         []gCB
 	bits        map[string]int
 	nSpans      int
+	readers     int
 	vis, loc    vset
 	cur         where
 }
@@ -105,7 +106,7 @@ func (b *builder) mk(k string) Op {
 		b.tracerScope = append(b.tracerScope, op.S)
 		return op
 	case "inst":
-		return b.mkInst(-1, -1)
+		return b.mkInst(-1, -1, -1)
 	case "rec":
 		var cand []int
 		anySync := false
@@ -121,7 +122,7 @@ func (b *builder) mk(k string) Op {
 			if anySync {
 				return Op{K: "pause"}
 			}
-			return b.mkInst(0, -1)
+			return b.mkInst(0, -1, -1)
 		}
 		return b.mkRec(b.from("inst", cand))
 	case "span":
@@ -145,7 +146,7 @@ func (b *builder) mk(k string) Op {
 			}
 		}
 		if len(ms) == 0 {
-			return b.mkInst(1, -1)
+			return b.mkInst(1, -1, -1)
 		}
 		m := b.from("meter", ms)
 		return b.mkReg(m, by[m], rapid.IntRange(1, 3).Draw(b.t, "ninsts"))
@@ -187,7 +188,10 @@ func (b *builder) mk(k string) Op {
 		}
 		return Op{K: k, U: b.from("prop", ps)}
 	}
-	return Op{K: k} // collect, pause, set_*, self_*
+	if k == "collect" {
+		return Op{K: k, R: b.pick("reader", b.readers)}
+	}
+	return Op{K: k} // pause, set_*, self_*
 }
 
 func (b *builder) mkUnreg(c int) Op {
@@ -216,15 +220,16 @@ func (b *builder) mkReg(m int, cand []int, n int) Op {
 		is = append(is, rem[j])
 		rem = append(rem[:j], rem[j+1:]...)
 	}
-	op := Op{K: "reg", U: m, CB: len(b.cbs), Is: is}
+	op := Op{K: "reg", U: m, CB: len(b.cbs), Is: is, Y: rapid.SampledFrom([]int{0, 1, 1, 2, 2, 2, 3}).Draw(b.t, "cb_delay")}
 	b.cbs = append(b.cbs, gCB{meter: m, insts: is})
 	b.loc.cb = append(b.loc.cb, op.CB)
 	return op
 }
 
 // mkInst creates an instrument: obs -1 any / 0 synchronous / 1 observable; on
-// meter slot m (or any visible one when m < 0).
-func (b *builder) mkInst(obs, m int) Op {
+// meter slot m (or any visible one when m < 0); bad -1 drawn / 0 valid name /
+// 1..3 a name the SDK refuses.
+func (b *builder) mkInst(obs, m, bad int) Op {
 	if m < 0 {
 		ms := cat(b.vis.meter, b.loc.meter)
 		if len(ms) == 0 {
@@ -240,7 +245,14 @@ func (b *builder) mkInst(obs, m int) Op {
 	}
 	kd := b.from("kind", ks)
 	op := Op{K: "inst", D: len(b.insts), U: m, Kd: kd, N: b.pick("name", 2)}
-	if kinds[kd].obs && rapid.IntRange(0, 2).Draw(b.t, "option_callback") == 0 {
+	if bad < 0 {
+		bad = 0
+		if rapid.IntRange(0, 11).Draw(b.t, "bad_name") == 0 {
+			bad = rapid.IntRange(1, 3).Draw(b.t, "bad_kind")
+		}
+	}
+	op.Bad = bad
+	if op.Bad == 0 && kinds[kd].obs && rapid.IntRange(0, 2).Draw(b.t, "option_callback") == 0 {
 		op.OC, op.CB = true, len(b.cbs)
 		b.cbs = append(b.cbs, gCB{meter: m, insts: []int{op.D}, opt: true})
 		b.loc.cb = append(b.loc.cb, op.CB)
@@ -300,6 +312,8 @@ func insertAt(ops []Op, pos int, op Op) []Op {
 func gen(t *rapid.T) Case {
 	b := &builder{t: t, bits: map[string]int{}}
 	c := Case{Runs: 2}
+	c.Readers = rapid.SampledFrom([]int{1, 1, 2, 2, 2, 3}).Draw(t, "readers")
+	b.readers = c.Readers
 	storm := rapid.IntRange(0, 9).Draw(t, "storm") < 5
 	var stormCBs []int
 
@@ -322,10 +336,19 @@ func gen(t *rapid.T) Case {
 					if i >= 2 && rapid.Bool().Draw(t, "storm_sync") {
 						want = 0
 					}
-					iop := b.mkInst(want, mop.D)
+					iop := b.mkInst(want, mop.D, -1)
 					ops = append(ops, iop)
 					if kinds[iop.Kd].obs {
 						obs = append(obs, iop.D)
+					}
+				}
+				if rapid.IntRange(0, 3).Draw(t, "storm_rejected") == 0 {
+					// an observable instrument the SDK will refuse and a callback on it
+					iop := b.mkInst(1, mop.D, rapid.IntRange(1, 3).Draw(t, "bad_kind"))
+					rop := b.mkReg(mop.D, []int{iop.D}, 1)
+					ops = append(ops, iop, rop)
+					if rapid.Bool().Draw(t, "unreg_rejected") {
+						stormCBs = append(stormCBs, rop.CB)
 					}
 				}
 				nc := rapid.IntRange(1, 8).Draw(t, "storm_cbs")
@@ -425,8 +448,22 @@ func gen(t *rapid.T) Case {
 		for _, p := range b.vis.prop {
 			ops = append(ops, Op{K: "inject", U: p})
 		}
-		ops = append(ops, Op{K: "collect"})
+		ops = append(ops, b.mk("collect"))
 		c.Phases = append(c.Phases, [][]Op{ops})
+	}
+
+	// ---- phase 4: the readers of the SDK collect concurrently ----
+	if c.Readers > 1 {
+		var ph [][]Op
+		for r := 0; r < c.Readers; r++ {
+			var ops []Op
+			n := rapid.IntRange(1, 2).Draw(t, "concurrent_collects")
+			for i := 0; i < n; i++ {
+				ops = append(ops, Op{K: "collect", R: r, P: rapid.SampledFrom([]int{0, 0, 0, 1}).Draw(t, "p")})
+			}
+			ph = append(ph, ops)
+		}
+		c.Phases = append(c.Phases, ph)
 	}
 	return c
 }
